@@ -538,42 +538,42 @@ TECHNIQUE = {
     "C03": "Kani harnesses of the attach/detach protocol against stubbed ptrace (contract stubs), complete control-flow harness of dump()",
     "C04": "Kani complete proof of the register map + bounded/complete control-flow harnesses against contract stubs",
     "C05": "deductive verification (Verus) of exception_stream::write + Kani complete proof of the crash-context register map",
-    "C06": "deductive verification (Verus): postconditions of get_stack_info / fill_thread_stack on verbatim text; Kani for the limit selection",
-    "C07": "deductive verification (Verus): postconditions of fill_thread_stack / memory_list_stream::write; Kani for app memory and the IP window",
-    "C08": "Kani complete/bounded proofs of the module filter predicates",
+    "C06": "deductive verification (Verus): postconditions of get_stack_info / fill_thread_stack / find_mapping / may_be_stack on verbatim text; Kani and live-target native checks for the limit selection",
+    "C07": "deductive verification (Verus): postconditions of fill_thread_stack / memory_list_stream::write / app_memory::write; Kani and a live-target native check for the IP window",
+    "C08": "deductive verification (Verus) of the module filter predicates + bounded-exhaustive native contract checks of naming and ordering",
     "C09": "deductive verification (Verus): DirSection representation invariant proved function by function against an assumed std::io model",
     "C10": "deductive verification (Verus): flush-before-entry precondition of dump_dir_entry discharged at its call site; Kani control-flow harness",
     "C11": "Kani harnesses against contract stubs (suspend_threads bounded, generate_dump control flow complete)",
     "C12": "bounded checking of the sanitizer's contract: native bounded-exhaustive enumeration + Kani symbolic harnesses",
     "C13": "bounded-exhaustive native check of aggregate's contract (reference predicates from the statement) on all maps of <= 3 lines",
     "C14": "bounded-exhaustive native check of ELF identification (well-formed images + all single/pairwise field corruptions)",
-    "C15": "Kani bounded harnesses of thread_names_stream::write (every named/unnamed pattern of 2 threads)",
+    "C15": "Kani bounded harnesses of thread_names_stream::write (every named/unnamed pattern of 2 threads) + bounded-exhaustive native enumeration of short thread lists",
     "C16": "deductive verification (Verus contracts on verbatim src/mem_writer.rs) + Kani harnesses for per-type serialisation facts and the three functions Verus cannot read",
-    "C17": "Kani bounded harnesses of MemReader::ptrace against a contract stub of PEEKDATA",
+    "C17": "Kani bounded harnesses of MemReader::ptrace against a contract stub of PEEKDATA + bounded-exhaustive native contract check of all three strategies",
     "C18": "Kani complete proofs of the decidable conjuncts + native enumeration of auxv precedence",
-    "C19": "Kani complete control-flow harness of dump() asserting generate_dump's precondition + Verus postconditions of the two consumers",
-    "C20": "deductive verification (Verus): biconditional postcondition of fill_thread_stack and crash_thread_references_principal_mapping; Kani for the scanner",
+    "C19": "deductive verification (Verus): generate_dump's fresh-request precondition discharged by the verbatim dump() for every writer state, postconditions of the two consumers; Kani control-flow harness and native reuse histories",
+    "C20": "deductive verification (Verus): biconditional postcondition of fill_thread_stack and crash_thread_references_principal_mapping, the stack scanner proved for any length; Kani cross-check of the scanner",
 }
 LEVEL_TEXT = {
-    "C01": "unbounded proofs for the builder, the directory writer and three stream writers; bounded Kani checks for thread names, arrays, strings, app memory; complete control-flow proof (relative to contract stubs) that exactly the declared number of entries is emitted. Streams whose bodies read /proc are covered only through the builder primitives they call",
-    "C02": "unbounded proof of overflow/bounds/termination obligations for the Verus-readable functions of the dump path; bounded Kani and bounded-exhaustive native checks for the parsers Verus cannot read; dso_debug is not covered",
-    "C03": "bounded/complete checks of the writer's side of the ptrace protocol against contract stubs; the kernel's side (signal delivery, scheduling) is out of reach and not claimed",
+    "C01": "unbounded proofs for the builder, the directory writer and four stream writers (thread stacks, memory list, exception, app memory); bounded Kani checks for thread names, arrays and strings; complete control-flow proof (relative to contract stubs) that exactly the declared number of entries is emitted. Streams whose bodies read /proc are covered only through the builder primitives they call",
+    "C02": "unbounded proof of overflow/bounds/termination obligations for the Verus-readable functions of the dump path (incl. the stack scanner, the mapping lookups, app memory, the module filters); bounded Kani and bounded-exhaustive native checks for the parsers Verus cannot read (ELF identification, SoVersion, dso_debug on a fake target)",
+    "C03": "bounded/complete checks of the writer's side of the ptrace protocol against contract stubs; a native check that a live target runs again after every return path of dump(); the kernel's side (signal delivery, scheduling) is out of reach and not claimed",
     "C04": "complete proof (all register contents) of the thread register map; bounded checks of thread retention and of the per-thread loop; complete control-flow proofs relative to stubs (thorough tier)",
     "C05": "unbounded proof of the exception record, complete proof of the crash-context register map, bounded check that the blamed thread shares that context (thorough)",
-    "C06": "unbounded proof over all stack pointers, mapping lists and page sizes of the stack-capture postconditions (containment of SP, page start, extent, 2 KiB cap), relative to the reader contract; bounded Kani check of which threads are limited",
-    "C07": "unbounded proof that stack regions and the serialised memory list are faithful, relative to the reader contract; bounded Kani checks for app memory and the IP window",
-    "C08": "complete proofs of two filter predicates, bounded proof of user-mapping containment; name/SONAME/entry-point clauses are not covered",
+    "C06": "unbounded proof over all stack pointers, mapping lists and page sizes of the stack-capture postconditions (containment of SP, page start, extent, 2 KiB cap), relative to the reader contract; the first-plausible-mapping rule for stack pointers in a guard page; the lookups find_mapping / may_be_stack proved for mapping lists of any length; bounded Kani and live-target native checks of which threads are limited",
+    "C07": "unbounded proof that stack regions, application-requested regions (any number) and the serialised memory list are faithful, relative to the reader contract; bounded Kani and live-target native checks for the IP window",
+    "C08": "unbounded proofs of the three module filters (user-mapping containment for any list length); module naming, SONAME substitution and entry-point-first by bounded-exhaustive native checks; build-id equality with an independent reader is not decided",
     "C09": "unbounded proof, for every start offset, pre-existing destination content, image and operation, that each DirSection operation preserves 'flushed prefix == image' and touches nothing outside [start, start+|image|), relative to the assumed Write/Seek semantics",
     "C10": "unbounded proof that no directory entry reaches the destination before the bytes it can reference (the obligation that failed on the pinned tree and was repaired); complete control-flow proof that generate_dump emits entries only through write_to_file (thorough)",
     "C11": "bounded check of suspend_threads, complete control-flow proof (relative to stubs) for the 11 best-effort steps of generate_dump (thorough); init and JSON well-formedness are not covered",
     "C12": "bounded: exhaustive native enumeration of 13 872 boundary inputs (quick) and Kani over all 8/12-byte stacks with a symbolic mapping (thorough); not a proof for all stack lengths",
     "C13": "bounded: exhaustive over all maps of up to 3 lines of a 64-element per-line domain; not a proof for all map lengths",
     "C14": "bounded: three hand-built images and 583 848 corrupted variants; agreement with an independent parser on installed files is not decided",
-    "C15": "bounded: every named/unnamed pattern of 2 threads with symbolic ids and concrete names",
+    "C15": "bounded: every named/unnamed pattern of 2 threads with symbolic ids and concrete names (Kani); every list of <= 3 threads over 8 name shapes incl. non-BMP names (native)",
     "C16": "unbounded proof for every Buffer/MemoryWriter/MemoryArrayWriter function Verus can read (all inputs, all buffer states); complete Kani proofs of the per-type size facts; bounded Kani checks (stated bounds) of alloc_from_array/alloc_from_iter/write_string_to_location",
-    "C17": "bounded: destinations of 3, 8, 11, 17 bytes, every source alignment and every readable interval, ptrace strategy only; the two syscall strategies are assumed",
+    "C17": "bounded: destinations of 3, 8, 11, 17 bytes, every source alignment and every readable interval for the ptrace strategy (Kani); all three strategies on a live child around a mapping end, 6144 reads (native); strategy selection complete (Kani)",
     "C18": "complete proofs of two pure conversions, bounded-exhaustive check of auxv precedence; the content-equality clauses (kernel data) are not decidable here",
-    "C19": "complete control-flow proof (relative to stubs, thorough tier) that every dump starts from fresh per-dump state, unbounded proofs that the two consumers emit only that state; a native two-dump replay on a live child in the quick tier",
-    "C20": "unbounded proof of the keep/drop rule for stacks under skip-unreferenced, relative to the assumed contract of the stack scanner (checked bounded by Kani)",
+    "C19": "unbounded proof on the verbatim text of dump() that, for every incoming writer state, generate_dump receives the per-request state of a fresh writer and the configuration is unchanged; unbounded proofs that the two consumers emit only that state; the same obligation through the real callees by a complete Kani control-flow harness (thorough); native reuse histories incl. failed requests on live children",
+    "C20": "unbounded proof of the keep/drop rule for stacks under skip-unreferenced and of the stack scanner itself (stack copies of any length, relative to a byteorder stand-in that Kani cross-checks at stated lengths)",
 }
 NOT_APPLICABLE = {}
